@@ -1315,7 +1315,8 @@ impl Context {
 
         if let Some(symbols) = scope.symbols.get(&name.node) {
             for symbol in symbols {
-                debug_assert!(overloads.is_empty() || matches!(symbol, ScopeSymbol::Function(_)));
+                // A name may hold function overloads followed by a later non-function symbol
+                // (a global called "step" after the intrinsic) - the non-function symbol wins
                 match symbol {
                     ScopeSymbol::Function(id) => overloads.push(*id),
                     ScopeSymbol::ConstantBuffer(_) => {}
